@@ -94,6 +94,7 @@ type c8refl struct {
 
 type c8world struct {
 	c                 *Ctx
+	failedOpen        bool // this run has logged an unencodable value inside a container of open type
 	probeLg           *zap.Logger
 	failing           *zap.Logger // over a device whose writes fail
 	failingCore       zapcore.Core
@@ -314,8 +315,10 @@ func (w *c8world) history(kind, a int, lg *zap.Logger) {
 		case 3:
 			// the value fails, not its type: the same containers hold well-formed
 			// values in other entries (and in the probe)
+			w.failedOpen = true
 			lg.Info("unencodable member of a list", zap.Any("bad", []any{1, make(chan int)}), zap.Any("m", map[string]any{"c": complex(1, 2)}))
 		case 4:
+			w.failedOpen = true
 			lg.Info("unencodable value in an open field", zap.Reflect("bad", c8holder{V: func() {}}), zap.Reflect("p", &c8holder{V: make(chan int)}))
 		case 0:
 			lg.Info("unencodable reflected value", zap.Reflect("bad", make(chan int)))
@@ -507,6 +510,9 @@ func runC08(c *Ctx) {
 			if w.recipe == 9 && g.Chance(3) {
 				st.kind = 20 // reflected values with yielding marshalers on both sides
 			}
+			if w.recipe == 10 && g.Chance(3) {
+				st.kind, st.a = 13, 3+g.Draw(2) // failing values of the probe's own container types
+			}
 			out = append(out, st)
 		}
 		return out
@@ -541,6 +547,17 @@ func runC08(c *Ctx) {
 				before := len(w.probeSk.Calls)
 				w.callProbe()
 				out := c8mine(w.probeSk, before, "main")
+				if w.recipe == 10 && w.failedOpen && bytes.Contains(out, []byte(`Error":`)) {
+					// the differential oracle has no notion of what the bytes should be:
+					// state that outlives a run (process-wide, keyed by type, say) spoils
+					// the first rendering of every later run as well. For the recipe
+					// whose reflected values are all well-formed there is one thing it
+					// can say on its own: none of them is reported as unencodable. (Only
+					// when this run itself has logged a failing value of such a type
+					// before: a violation has to replay from its own tape.)
+					c.Fail("C08: a well-formed reflected value was rendered as a failure", "probe (recipe 10, containers of open type with well-formed content, console=%v): %q", console, clip(out))
+					return
+				}
 				if i == 0 {
 					ref = out
 					refDone = true
